@@ -79,6 +79,41 @@ class Locator(object):
         return None
 
 
+def unshadowed_name_nodes(tree):
+    """ids of the ast.Name nodes that are NOT lexically under a comprehension having that name among its iteration
+    targets (the first iterable of a comprehension belongs to the enclosing block).  Conservative: any target of
+    any `for` clause of the comprehension hides the name in all the other parts of the comprehension."""
+    out = set()
+    comps = (ast.ListComp, ast.SetComp, ast.DictComp, ast.GeneratorExp)
+
+    def targets(c):
+        t = set()
+        for g in c.generators:
+            for n in ast.walk(g.target):
+                if isinstance(n, ast.Name):
+                    t.add(n.id)
+        return t
+
+    def visit(node, hidden):
+        if isinstance(node, comps):
+            inner = hidden | targets(node)
+            for k, g in enumerate(node.generators):
+                visit(g.iter, hidden if k == 0 else inner)
+                visit(g.target, inner)
+                for c in g.ifs:
+                    visit(c, inner)
+            for f in ('elt', 'key', 'value'):
+                if hasattr(node, f):
+                    visit(getattr(node, f), inner)
+            return
+        if isinstance(node, ast.Name) and node.id not in hidden:
+            out.add(id(node))
+        for c in ast.iter_child_nodes(node):
+            visit(c, hidden)
+    visit(tree, frozenset())
+    return out
+
+
 class Abort(BaseException):
     pass
 
@@ -92,6 +127,8 @@ class Tracer(object):
         self.nops = 0
         self.instrs = {}
         self.events = set()       # (kind, name, id(node), key) with kind in 'read' | 'write' | 'del'
+        self.unshadowed = set()   # the events made through a Name that no enclosing comprehension target hides
+        self.free_names = unshadowed_name_nodes(locator.tree)
         self.nodes = {}
         self.unattributed = 0
         self.nevents = 0
@@ -141,6 +178,8 @@ class Tracer(object):
                     else:
                         self.nodes[id(at[0])] = at[0]
                         self.events.add((kind, name, id(at[0]), at[1]))
+                        if isinstance(node, ast.Name) and node.id == name and id(node) in self.free_names:
+                            self.unshadowed.add((kind, name, id(at[0]), at[1]))
         return self.local
 
 
